@@ -111,7 +111,10 @@ pub fn run_seed(verif_seed: u64, prop: &str, idx: u64) -> u64 {
 }
 
 pub fn slot_ns(prop: &dyn Prop, idx: u64) -> u64 {
-    // slot 0 is used by the warm-up
+    // slot 0 is used by the warm-up; the clock must stay below i64::MAX ns (year 2262), the code
+    // under test converts nanoseconds to i64
+    let s = BASE_NS as u128 + (idx as u128 + 2) * prop.gap_ns() as u128;
+    assert!(s < 9_000_000_000_000_000_000u128, "HARNESS: run index {} beyond the representable virtual time", idx);
     BASE_NS + (idx + 1) * prop.gap_ns()
 }
 
